@@ -686,7 +686,11 @@ func (Scenario) Run(c choice.Chooser, opt sim.Options) (res sim.Result) {
 		return nil
 	}
 
-	nOps := 5 + c.Intn("ops", 56)
+	maxOps := 56
+	if opt.Tier == "thorough" {
+		maxOps = 150 // deeper bounds
+	}
+	nOps := 5 + c.Intn("ops", maxOps)
 	for step := 0; step < nOps; step++ {
 		res.Steps++
 		ids := w.nodeIDs()
